@@ -332,6 +332,16 @@ func Gen(seed uint64, tier string) any {
 			if core.Chance(r, 15) {
 				inc = append(inc, "/zones/missing.zone")
 			}
+			if core.Chance(r, 20) && len(names) > 1 {
+				// the same files spelled relative to the directory of the including file
+				other := names[1+r.IntN(len(names)-1)]
+				inc = append(inc, relTo(nm, other))
+			}
+			if core.Chance(r, 10) {
+				// paths that climb to or above the root of the include file system, and names that only begin like
+				// a parent directory: whatever the file system says to them, the parser has to come back
+				inc = append(inc, core.Pick(r, "..", "../..", "../../..", "../../../x.zone", "..data", "../..data", "..data/inc.zone", "sub/../../..", ".", "./.", "...", "/..", "/../..", "/", "//", "zones/../.."))
+			}
 			nl := 2 + r.IntN(12)
 			if tier == "thorough" {
 				nl = 2 + r.IntN(40)
@@ -399,6 +409,18 @@ func Gen(seed uint64, tier string) any {
 			default:
 				ft.At = r.IntN(size + 1)
 			}
+			if txt := f.Text(); core.Chance(r, 25) && size > 0 {
+				// right behind (or on) a delimiter: the octet a lexer looks at to decide what the token before it was
+				var ds []int
+				for i := 0; i < len(txt); i++ {
+					if strings.IndexByte(": \t\n\"();$\\", txt[i]) >= 0 {
+						ds = append(ds, i)
+					}
+				}
+				if len(ds) > 0 {
+					ft.At = ds[r.IntN(len(ds))] + r.IntN(2)
+				}
+			}
 			ft.Wrap = core.Chance(r, 20)
 			ft.Temp = !ft.Wrap && core.Chance(r, 15)
 			if core.Chance(r, 12) {
@@ -412,6 +434,18 @@ func Gen(seed uint64, tier string) any {
 					ft.At = r.IntN(4) // before the reader has seen its first few octets
 				}
 			}
+			if txt := f.Text(); sc.Kind == "privkey" && core.Chance(r, 40) && strings.Contains(txt, ":") {
+				// a key file is "Field: value" lines: the colon, the blank behind it and the first octet of the
+				// value are each read by code of their own
+				var cs []int
+				for i := 0; i < len(txt); i++ {
+					if txt[i] == ':' {
+						cs = append(cs, i)
+					}
+				}
+				ft.At = cs[r.IntN(len(cs))] + r.IntN(3)
+				ft.Once = core.Chance(r, 60)
+			}
 			if f.Name != sc.Files[0].Name && core.Chance(r, 40) {
 				ft.Kind, ft.Once = core.Pick(r, "notexist", "perm", "emfile", "dir", "plainerr", "wrappederr", "staterr", "closeerr"), false
 			}
@@ -422,6 +456,19 @@ func Gen(seed uint64, tier string) any {
 		}
 	}
 	return sc
+}
+
+// relTo spells the path of file to relative to the directory of file from (both are slash-separated paths
+// inside the include file system).
+func relTo(from, to string) string {
+	fd := strings.Split(from, "/")
+	fd = fd[:len(fd)-1]
+	td := strings.Split(to, "/")
+	i := 0
+	for i < len(fd) && i < len(td)-1 && fd[i] == td[i] {
+		i++
+	}
+	return strings.Repeat("../", len(fd)-i) + strings.Join(td[i:], "/")
 }
 
 // tokens splits a record line at blanks outside quotes.
